@@ -526,7 +526,10 @@ func replayNative(repoDir, path string, rf *ReplayFile) (bool, string) {
 	if rf.Kind == "implicit" {
 		want = "panic:"
 	}
-	if strings.Contains(s, want) && !strings.Contains(s, "VERIF-REPLAY-ASSUME-FAILED") {
+	// reproduced iff the wanted failure happens, and before any harness assumption fails
+	// (after a failed assertion the native run goes on and may then violate a later assumption)
+	wi, ai := strings.Index(s, want), strings.Index(s, "VERIF-REPLAY-ASSUME-FAILED")
+	if wi >= 0 && (ai < 0 || wi < ai) {
 		line := ""
 		for _, l := range strings.Split(s, "\n") {
 			if strings.Contains(l, want) {
